@@ -9,7 +9,7 @@ CHECKS = {
  "C20": dict(level="exploration", ref="6/C20",
    text="Seeded operation histories (<=400 ops) over key pools constructed to collide, stepped in lock-step with a std::map reference model under ASan; "
         "every return value, lookup, entry count, iteration and list export is compared after every operation. Sampling, not proof.",
-   note="Trusts the reference map and the harness; binary keys differing only in ASCII case in case-insensitive tables are excluded (no semantics defined).",
+   note="Trusts the reference map and the harness; equality in a case-insensitive table is equality after folding ASCII case, for binary keys as for strings (colliding case pairs are searched for).",
    technique=TECH + "; lock-step reference map over operation histories"),
 }
 
@@ -21,7 +21,7 @@ CHECKS["C15"] = dict(level="exploration", ref="6/C15",
    technique=TECH + "; lock-step queue model over scripted VAD decision sequences")
 CHECKS["C06"] = dict(level="exploration", ref="6/C06",
    text="Seeded schedules (chunk cuts down to 1 sample, per-call output capacity incl. 0, count-only queries, int16/float32 entry, re-buffered remainders) x front-end configuration swarm x "
-        "1-3 utterances on one fe_t; frames must be bit-identical to a one-call execution on a pristine fe_t of the same build, frame count must equal an independent formula, "
+        "1-3 utterances on one fe_t (incl. input byte order other than the host's); frames must be bit-identical to a one-call execution on a pristine fe_t of the same build, frame count must equal an independent formula, "
         "every buffer is exact-size under ASan. Sampling, not proof.",
    note="The reference is the build under test under the canonical schedule: an error that is the same under every schedule is out of scope (the property is an invariance). Dither off.",
    technique=TECH + "; differential against the canonical schedule of the same build")
@@ -60,18 +60,18 @@ CHECKS["C17"] = dict(level="fault_enumeration", ref="6/C17",
 
 CHECKS["C04"] = dict(level="exploration", ref="6/C04",
    text="decoder_alignment requested at plan-chosen points (mid-utterance on partial results, twice in a row, after more audio, after end_utt; grow/circular buffering; compallsen and "
-        "default scoring): every non-NULL alignment is checked against the segmentation read at the same instant, the dictionary pronunciations, the model's emitting states, the "
-        "partition / contiguity / positive-duration rules and exact score additivity; the word-score = first-pass-score clause is evaluated only where it is well defined (compallsen, "
+        "default scoring; the same audio again under another text, other audio of the same length under the same text, twin whole-utterance feeds): every non-NULL alignment is checked against the segmentation read at the same instant, the dictionary pronunciations, the model's emitting states (the senones of the nearest triphone in the model definition, "
+        "contexts taken across word boundaries), the partition / contiguity / positive-duration rules and exact score additivity; the word-score = first-pass-score clause is evaluated only where it is well defined (compallsen, "
         "wip=pip=1, pruning disabled).",
    note=DEC_NOTE + " Two structural exceptions to the word-score clause are recorded as known findings (one-phone words, last word of a result).",
    technique=TECH + "; invariant monitors over alignments requested at scheduled instants")
 CHECKS["C10"] = dict(level="fault_enumeration", ref="6/C10",
    text="Valid artefacts (generated JSGF/FSG, dictionary and filler-dictionary excerpts, JSON/key-value configuration, feat_params.json, alignment text, word+pronunciation, CMN text) damaged "
         "by structured mutations and handed over either as STORED files through the simulated file layer (mmio image / fopen stream, with short reads and EIO at byte k, JSGF imports) "
-        "or as in-memory strings; whatever the library returns is used (grammar activated + decode, config -> fe/feat init, dictionary lookups) and freed; terminates within a "
+        "in-memory strings, the fsg/jsgf configuration keys at decoder_init or the buffer-based init sequence; whatever the library returns is used (grammar activated + decode, config -> fe/feat init, dictionary lookups) and freed; terminates within a "
         "watchdog, no memory error / assert / exit.",
    note="Simulation proper applies to the stored artefacts (file-layer faults); the in-memory string half rides on the same corruptor and is mutated-argument testing (a coverage-guided "
-        "fuzzer would be the better tool there and is not built). One known finding (closure blow-up on deeply nested JSGF).",
+        "fuzzer would be the better tool there and is not built). One known finding (null-transition closure blow-up), identified by the measured hang site.",
    technique=TECH + "; storage-fault injection on text artefacts behind the file seams plus structured text mutation")
 
 CHECKS["C11"] = dict(level="exploration", ref="6/C11",
@@ -99,13 +99,14 @@ CHECKS["C16"] = dict(level="exploration", ref="6/C16",
    text="Histories of decoder_add_word (new words, numbered alternates, duplicates, unknown phone, alternate without base, empty word / pronunciation, 1-12 phones, 4200 bulk additions "
         "across the table growth) interleaved with lookups, grammar loads, alignment texts using the new words and short utterances; a reference map (spelling -> pronunciation, "
         "alternates per base) is stepped in lock-step and compared with lookups, ids, base links, alternate chains read off the public dict_t, dictionary size and 24 sampled old words "
-        "after every addition; a rejected addition must leave all of it unchanged; hypotheses report base spellings (C03 monitor).",
+        "after every addition, the context tables of every touched word against the model definition, and every known alternate of a grammar word in the loaded "
+        "grammar's vocabulary; a rejected addition must leave all of it unchanged; hypotheses report base spellings (C03 monitor).",
    note=DEC_NOTE, technique=TECH + "; lock-step reference map over dictionary mutation histories")
 
 CHECKS["C09"] = dict(level="exploration", ref="6/C09",
    text="Decoders created INSIDE the run and driven by seeded histories of public API calls from logical producer/observer/mutator tasks (grammars incl. refused ones, words, "
         "start/feed/end in chunks, hypotheses, segment/N-best/alignment iterators finished, abandoned or freed early, lattices, JSON, CMN, retain/free, reinit), ~15% out-of-order or "
-        "degenerate calls (23 kinds), decoder_free mid-utterance, and a seeded crash point after which every reference is released. Oracle: no abnormal termination (ASan), "
+        "degenerate calls (28 kinds, incl. grammar / add_word inside an utterance and reinitialisations refused at the front-end, model or dictionary stage), decoder_free mid-utterance, and a seeded crash point after which every reference is released. Oracle: no abnormal termination (ASan), "
         "documented failure values, the canary utterance still decodes to the canary record on every surviving decoder (bounded liveness once misuse stops), and an allocation "
         "ledger (sanitizer malloc/free hooks armed only while a library call is on the stack) empty after the last release, leak site taken from ASan's allocation stack.",
    note=DEC_NOTE + " Allocation failure is not injected. decoder_process on an idle decoder may return 0 instead of the documented <0.",
@@ -113,8 +114,8 @@ CHECKS["C09"] = dict(level="exploration", ref="6/C09",
 
 CHECKS["C18"] = dict(level="exploration", ref="6/C18",
    text="The hostile audio channel (silence, full-scale square, impulses, DC, noise at several levels, alternating silence/noise, speech with dropouts/clipping/bursts, float input up "
-        "to 1e6 x full scale, long streams: 30 s quick / 4 min thorough) over 2-6 utterances with CMN carried and exported/imported, run against a library built with UBSan "
-        "signed-integer-overflow and float-cast-overflow armed: every cepstral and dynamic-feature value finite, CMN text finite and a text-level fixpoint, every senone score of "
+        "to 1e6 x full scale, long streams: 30 s quick / 4 min thorough) over 2-6 utterances (streamed or whole-utterance batch feeds; a variance-normalising template) with CMN carried and exported/imported, run against a library built with UBSan "
+        "signed-integer-overflow and float-cast-overflow armed: every cepstral value (decoder's front end and a second front end with another configuration: noise/DC removal, log-spectrum, transform, lifter) and dynamic-feature value finite, CMN text finite, a text-level fixpoint and stable under recomputation from the imported state, every senone score of "
         "every frame in range with best = 0 (compallsen), path scores <= 0 and above the floor, first and second (alignment) pass free of signed overflow.",
    note=DEC_NOTE + " Only the undefined behaviour the property names is armed (no shift/alignment checks: negative left shifts are pervasive and benign here).",
    technique=TECH + "; audio-channel fault injection with range/finite-value monitors under UBSan")
